@@ -3,6 +3,7 @@ package mon
 import (
 	"fmt"
 	"strings"
+	"sync/atomic"
 
 	"verifharness/gen"
 	"verifharness/probe"
@@ -120,6 +121,22 @@ func CheckC02(c *Ctx) {
 				objCase(w, api, list[i], st)
 			}
 			c.Distinct.Add(HashBytes(vi, list[i]))
+		})
+	}
+	// COMPLETE: every assignment with at most 3 (thorough: 4) optional metrics defined x all their values
+	for vi, api := range probe.APIs {
+		api, vi := api, vi
+		v := api.Ver
+		subsets := gen.SparseSubsets(v, c.Pick(3, 4))
+		c.Parallel("at-most-k-defined-"+v.Name, len(subsets), 1, func(w *Worker, i int) {
+			base := gen.KSparseAssign(w.R, v, 0)
+			n := 0
+			gen.EnumSubsetValues(v, base, subsets[i], func(a spec.Assign) {
+				objCase(w, api, a.Clone(), n%NStyles)
+				n++
+			})
+			w.CountN("at-most-k-defined-objects", int64(n))
+			c.Distinct.Add(HashBytes(vi, base) ^ uint64(i)<<32)
 		})
 	}
 	exhaustiveV2 := false
@@ -872,6 +889,27 @@ func CheckC16(c *Ctx) {
 			}
 		}
 	})
+	// COMPLETE: every set of at most 4 (thorough: 5) optional metrics defined, with every combination of
+	// their defined values, all other optional metrics not defined
+	subsets := gen.SparseSubsets(v, c.Pick(4, 5))
+	var enumerated atomic.Int64
+	c.Parallel("at-most-k-defined", len(subsets), 1, func(w *Worker, i int) {
+		base := baseBG(w.R, 2)
+		n := 0
+		gen.EnumSubsetValues(v, base, subsets[i], func(a spec.Assign) {
+			st := HParseCanonical
+			if n%3 == 1 {
+				st = HSetInOrder
+			} else if n%3 == 2 {
+				st = HSetHostile
+			}
+			check(w, a.Clone(), st, "at-most-k-defined")
+			n++
+		})
+		enumerated.Add(int64(n))
+	})
+	c.Extra["assignments_with_at_most_k_optional_metrics_defined"] = enumerated.Load()
+	c.Extra["k"] = c.Pick(4, 5)
 	// random assignments in random history styles
 	c.Parallel("random", c.Pick(4_000_000, 400_000_000), 4096, func(w *Worker, i int) {
 		a := gen.MixedAssign(w.R, v)
@@ -892,7 +930,7 @@ func CheckC16(c *Ctx) {
 		c.Floor("result "+r, c.Counts["result:"+r], 100)
 	}
 	c.SetReport(Report{
-		Rule:        "oracle from the assignment (T iff E defined; E iff any of CR IR AR MAV..MSA defined). COMPLETE: each of the 21 optional metrics as the sole defined metric x each defined value x 3 base backgrounds x 5 history styles; all-but-one; none/all; every pair of optional metrics x all value pairs. Sampled: random assignments (uniform, sparse 1/12, sparse 1/3) in random history styles (stale bits from overwritten values). distinct = distinct assignments",
+		Rule:        "oracle from the assignment (T iff E defined; E iff any of CR IR AR MAV..MSA defined). COMPLETE: each of the 21 optional metrics as the sole defined metric x each defined value x 3 base backgrounds x 5 history styles; all-but-one; none/all; every pair of optional metrics x all value pairs; EVERY assignment with at most 4 (thorough: 5) optional metrics defined x all their value combinations. Sampled: random assignments (uniform, sparse 1/12, sparse 1/3) in random history styles (stale bits from overwritten values). distinct = distinct assignments",
 		Assumptions: []string{"group membership of each metric per v4.0 specification Table 23"},
 	})
 	c.Finish()
